@@ -8,6 +8,8 @@ Impl-model: `mentionsDenied` is the walk that the Rego compiler performs for `re
 on the term language of `Acv.Model.RegoTerm` (calls — including assignments and infix expressions —,
 collections, comprehensions, any nesting).  `accept deny body` = the body compiles.
 
+* `denied_with_binding_found` / `denied_with_binding_rejected`: an operator that is never called by name but bound to
+  another function by `… with f as op` is found too (the engine refuses it: "target must not be unsafe");
 * `denied_subterm_found` / `denied_call_rejected`: wherever a call `op(args)` with `op ∈ deny` occurs —
   a statement of its own, the right-hand side of an assignment, an argument of an argument of a call,
   an item of a collection, the head or the body of a comprehension, at any depth — the body is rejected;
@@ -18,15 +20,44 @@ collections, comprehensions, any nesting).  `accept deny body` = the body compil
 namespace Acv.C08Term
 open Acv.RegoTerm
 
-/-- If a call to a denied operator is a sub-term of `t` (at any depth), the walk finds it. -/
-theorem denied_subterm_found (deny : List String) {op : String} {args : List T} {t : T}
-    (hop : op ∈ deny) (h : Sub (.call op args) t) : mentionsDenied deny t = true := by
+/-- If a USE of a denied operator — a call `op(args)`, or a binding `… with f as op` — is a sub-term of `t` (at any
+depth), the walk finds it. -/
+theorem denied_use_found (deny : List String) {op : String} {u t : T}
+    (hop : op ∈ deny) (hu : u.usesOp op = true) (h : Sub u t) : mentionsDenied deny t = true := by
   induction h with
-  | refl => simp [mentionsDenied, hop]
+  | refl =>
+    cases u with
+    | call o args => simp [T.usesOp] at hu; subst hu; simp [mentionsDenied, hop]
+    | withFn b tg fn => simp [T.usesOp] at hu; subst hu; simp [mentionsDenied, hop]
+    | var _ => simp [T.usesOp] at hu
+    | lit => simp [T.usesOp] at hu
+    | coll _ => simp [T.usesOp] at hu
+    | compr _ _ => simp [T.usesOp] at hu
+    | withVal _ _ _ => simp [T.usesOp] at hu
   | arg op' hm _ ih => simp [mentionsDenied, mentionsDeniedList_of_mem deny hm ih]
   | item hm _ ih => simp [mentionsDenied, mentionsDeniedList_of_mem deny hm ih]
   | head body _ ih => simp [mentionsDenied, ih]
   | body hd hm _ ih => simp [mentionsDenied, mentionsDeniedList_of_mem deny hm ih]
+  | wvBody target value _ ih => simp [mentionsDenied, ih]
+  | wvValue t target _ ih => simp [mentionsDenied, ih]
+  | wfBody target fn _ ih => simp [mentionsDenied, ih]
+
+/-- If a call to a denied operator is a sub-term of `t` (at any depth), the walk finds it. -/
+theorem denied_subterm_found (deny : List String) {op : String} {args : List T} {t : T}
+    (hop : op ∈ deny) (h : Sub (.call op args) t) : mentionsDenied deny t = true :=
+  denied_use_found deny hop (by simp [T.usesOp]) h
+
+/-- A denied operator that is never called by name but bound to another function with a `with` modifier — in any
+statement, at any depth — is found as well. -/
+theorem denied_with_binding_found (deny : List String) {op : String} (hop : op ∈ deny)
+    (c : Ctx) (body : T) (target : String) : mentionsDenied deny (plug c (.withFn body target op)) = true :=
+  denied_use_found deny hop (by simp [T.usesOp]) (sub_plug _ c)
+
+theorem denied_with_binding_rejected (deny : List String) {op : String} (hop : op ∈ deny)
+    (c : Ctx) (body : T) (target : String) (pre post : List T) :
+    accept deny (pre ++ plug c (.withFn body target op) :: post) = false := by
+  simp only [accept, Bool.not_eq_false', List.any_eq_true]
+  exact ⟨_, by simp, denied_with_binding_found deny hop c body target⟩
 
 /-- The same through contexts: a denied call plugged into ANY one-hole context is found. -/
 theorem denied_in_context_found (deny : List String) {op : String} (hop : op ∈ deny)
@@ -48,17 +79,20 @@ theorem denied_subterm_rejected (deny : List String) {op : String} (hop : op ∈
   simp only [accept, Bool.not_eq_false', List.any_eq_true]
   exact ⟨stmt, hs, denied_subterm_found deny hop h⟩
 
-/-- Conversely the walk reports only actual calls to denied operators. -/
+/-- Conversely the walk reports only actual uses (calls or `with … as op` bindings) of denied operators. -/
 theorem mentions_only_denied_calls (deny : List String) (t : T) (h : mentionsDenied deny t = true) :
-    ∃ op args, op ∈ deny ∧ Sub (.call op args) t := sub_of_mentions deny t h
+    ∃ op u, op ∈ deny ∧ u.usesOp op = true ∧ Sub u t := sub_of_mentions deny t h
 
-/-- Exact characterisation of acceptance. -/
+/-- Exact characterisation of acceptance: no statement contains a use of a denied operator. -/
 theorem accept_iff (deny : List String) (body : List T) :
     accept deny body = true ↔
-      ∀ stmt ∈ body, ∀ op args, Sub (.call op args) stmt → op ∉ deny := by
+      ∀ stmt ∈ body, ∀ op u, u.usesOp op = true → Sub u stmt → op ∉ deny := by
   constructor
-  · intro h stmt hs op args hsub hop
-    rw [denied_subterm_rejected deny hop hs hsub] at h
+  · intro h stmt hs op u hu hsub hop
+    have : accept deny body = false := by
+      simp only [accept, Bool.not_eq_false', List.any_eq_true]
+      exact ⟨stmt, hs, denied_use_found deny hop hu hsub⟩
+    rw [this] at h
     exact Bool.noConfusion h
   · intro h
     cases hacc : accept deny body with
@@ -66,8 +100,8 @@ theorem accept_iff (deny : List String) (body : List T) :
     | false =>
       simp only [accept, Bool.not_eq_false', List.any_eq_true] at hacc
       obtain ⟨stmt, hs, hm⟩ := hacc
-      obtain ⟨op, args, hop, hsub⟩ := sub_of_mentions deny stmt hm
-      exact absurd hop (h stmt hs op args hsub)
+      obtain ⟨op, u, hop, hu, hsub⟩ := sub_of_mentions deny stmt hm
+      exact absurd hop (h stmt hs op u hu hsub)
 
 /-- Contexts and the sub-term relation describe the same positions. -/
 theorem contexts_reach_every_occurrence (s t : T) : Sub s t ↔ ∃ c : Ctx, plug c s = t :=
@@ -106,9 +140,18 @@ example : accept deny0 [.call "eq" [.var "http.send", .lit]] = true := by decide
 -- head of a comprehension
 example : accept deny0 [.compr (.call "net.lookup_ip_addr" [.lit]) []] = false := by decide
 example : accept Acv.Gen.denyList [deep] = false := by decide
+-- `size := count(req) with count as http.send`: no call of http.send anywhere, rejected all the same
+example : accept deny0 [.call "assign" [.var "size", .withFn (.call "count" [.var "req"]) "count" "http.send"]] = false := by decide
+-- … also for a user function, inside a comprehension
+example : accept deny0 [.compr (.var "y") [.withFn (.call "data.p.fetch" [.var "r"]) "data.p.fetch" "net.lookup_ip_addr"]] = false := by decide
+-- mocking a VALUE, or binding a harmless function, is fine
+example : accept deny0 [.withVal (.call "eq" [.var "a", .lit]) "input.x" .lit, .withFn (.call "count" [.var "b"]) "count" "sum"] = true := by decide
 
 end Acv.C08Term
 
+#print axioms Acv.C08Term.denied_use_found
+#print axioms Acv.C08Term.denied_with_binding_found
+#print axioms Acv.C08Term.denied_with_binding_rejected
 #print axioms Acv.C08Term.denied_subterm_found
 #print axioms Acv.C08Term.denied_in_context_found
 #print axioms Acv.C08Term.denied_call_rejected
